@@ -397,6 +397,11 @@ def wave10_rules(ctx):
                 if a["pat"].get("k") == "p_wild":
                     n1 += 1
                     rej = any(x.get("k") == "mcall" and x["m"].startswith("add_warning") for x in sir.walk(a["body"])) or any(x.get("k") in ("return", "break") for x in sir.walk(a["body"]))
+                    b_ = a["body"]
+                    while b_.get("k") == "block" and len(b_["stmts"]) == 1 and b_["stmts"][0].get("k") == "expr":
+                        b_ = b_["stmts"][0]["e"]
+                    if (b_.get("k") == "path" and b_.get("s") == "None") or (b_.get("k") == "lit" and b_.get("v") is False):
+                        rej = True      # an operator probe that answers "not here": nothing is accepted
                     if not rej:
                         bad1.append("%s: the catch-all case of the match on `%s` accepts" % (f.name, sir.expr_str(m["e"])[:20]))
     obs.append(ob("C15.silent/lookahead-catch-all", False if bad1 else True if n1 >= 2 else None, "parse/expr.rs", "; ".join(bad1[:2]) if bad1 else "%d look-ahead decisions, each with a failing catch-all" % n1,
